@@ -75,7 +75,7 @@ class Checker:
         if sum(1 for x in self.viol if x["key"] == key) < 3:
             self.viol.append({"key": key, "msg": msg, "witness": w})
 
-    def after_add(self, cs, prev_cs, model, ids, w, full_index=True, rng=None):
+    def after_add(self, cs, prev_cs, model, ids, w, full_index=True, rng=None, light=False):
         """ids[i] = block id of model index i"""
         c = self.c
         c["arrivals_checked"] += 1
@@ -99,6 +99,8 @@ class Checker:
                 self.v("head-switched-without-more-work", "head moved from #%d to #%d of no greater height" % (old, got), w)
         if model.height[new] == model.height[model.head] and new != model.head:
             c["ties_observed"] += 1
+        if light:       # very long histories: the set comparisons below are done on a subset of the arrivals
+            return
         # tips
         tips = model.tips()
         c["max_tips_seen"] = max(c["max_tips_seen"], len(tips))
@@ -136,6 +138,32 @@ class Checker:
             self.v("forks-raises", "forks() raised %r; parents=%s" % (e, model.parent[1:]), w)
 
 
+def rle(parents):
+    """compact form of a long parent vector: runs [start index, length] in which block i+1 sits on block i, other entries verbatim"""
+    out = []
+    i = 0
+    while i < len(parents):
+        j = i
+        while j + 1 < len(parents) and parents[j + 1] == parents[j] + 1:
+            j += 1
+        if j - i >= 3:
+            out.append(["run", parents[i], j - i + 1])
+        else:
+            out += [[x] for x in parents[i:j + 1]]
+        i = j + 1
+    return out
+
+
+def unrle(r):
+    out = []
+    for e in r:
+        if e[0] == "run":
+            out += list(range(e[1], e[1] + e[2]))
+        else:
+            out.append(e[0])
+    return out
+
+
 def run_vector(chk, mods, parents, mode="cheap", sampled=None):
     """parents: list p[1..n] (index 0 = genesis)"""
     CoinState, dt, sg = mods
@@ -143,20 +171,27 @@ def run_vector(chk, mods, parents, mode="cheap", sampled=None):
     cs = CoinState.zero()
     ids = [cs.current_chain_hash]
     blocks = {0: cs.block_by_hash[ids[0]]}
-    w = {"kind": "vector", "parents": list(parents)}
+    w = {"kind": "vector", "parents": list(parents)} if len(parents) <= 450 else {"kind": "vector", "parents_rle": rle(parents)}
     chk.c["histories"] += 1
     chk.digests.add(digest(tuple(parents)))
     for n, p in enumerate(parents, start=1):
         i = model.add(p)
         blk = cheap_block(dt, sg, model.height[i], ids[p], n)
         prev = cs
-        cs = cs.add_block_no_validation(blk)
+        try:
+            cs = cs.add_block_no_validation(blk)
+        except Exception as e:
+            chk.v("add-raises-on-stored-parent", "adding block #%d (height %d) on the stored block #%d raised %r" % (
+                n, model.height[i], p, e), w if len(parents) <= 80 else {"kind": "vector", "parents_rle": rle(parents)})
+            return
         chk.c["unvalidated_adds"] += 1
         ids.append(blk.hash())
         if sampled is None:
             chk.after_add(cs, prev, model, ids, w)
         else:
-            chk.after_add(cs, prev, model, ids, w, full_index=False, rng=sampled)
+            N = len(parents)
+            light = N > 600 and not (n <= 20 or n % 101 == 0 or n >= N - 40 or (N // 2 - 3 <= n <= N // 2 + 3) or 1000 <= n <= 1012)
+            chk.after_add(cs, prev, model, ids, w, full_index=False, rng=sampled, light=light)
 
 
 def run_mined(chk, rng, nblocks, w_seed):
@@ -212,7 +247,9 @@ def run_shard(spec):
     chk = Checker()
     if "replay" in spec:
         w = spec["replay"]
-        if w.get("kind") == "vector" or "parents" in w:
+        if "parents_rle" in w:
+            run_vector(chk, mods, unrle(w["parents_rle"]), sampled=random.Random(1))
+        elif w.get("kind") == "vector" or "parents" in w:
             run_vector(chk, mods, w["parents"])
         return {"evaluations": chk.c["arrivals_checked"], "digests": sorted(chk.digests), "violations": chk.viol,
                 "counters": chk.c}
@@ -258,6 +295,20 @@ def run_shard(spec):
         vec += [len(vec), rng.randrange(len(vec))]
         run_vector(chk, mods, vec, sampled=rng)
         chk.c["long_histories"] = chk.c.get("long_histories", 0) + 1
+    # very long histories (above 1000 blocks): a main chain, a branch that forks more than 1000 blocks below the head and
+    # overtakes, late blocks on deeply buried blocks
+    for j in range(1 if quick else 4):
+        H = rng.choice([1040, 1100, 1300])
+        depth = rng.choice([1001, 1010, H - 5, H - 1])
+        vec = [i for i in range(H)]
+        fork_at = H - depth
+        cur = fork_at
+        for k in range(depth + 1):
+            vec.append(cur)
+            cur = len(vec)
+        vec += [len(vec), rng.randrange(len(vec)), rng.randrange(1, 20), 0, len(vec) + 2]
+        run_vector(chk, mods, vec, sampled=rng)
+        chk.c["very_long_histories"] = chk.c.get("very_long_histories", 0) + 1
     samples.append({"kind": "exhaustive parent vectors", "up_to_new_blocks": nmax, "example": [0, 0, 1, 1, 2]})
     return {"evaluations": chk.c["arrivals_checked"], "digests": sorted(chk.digests), "violations": chk.viol,
             "counters": chk.c, "samples": samples, "exhaustive": True}
@@ -271,11 +322,12 @@ def finalize(m, tier):
     return {
         "rule": "history = parent vector over arrival order; ALL n! vectors for every n <= %d new blocks (un-mined blocks, "
                 "non-validating entry point), random vectors up to 60 blocks, and random histories of mined blocks through "
-                "the validating entry point, and long histories (120-400 blocks) with forks 3..H-1 blocks deep that overtake; "
+                "the validating entry point, and long histories (120-400 blocks, and 1040-1300 blocks) with forks 3..H-1 blocks deep that overtake; "
                 "distinct = distinct parent vectors by digest; non-trivial = every vector "
                 "(ties/reorganisations counted separately)" % nmax,
         "floors": [("histories", c.get("histories", 0), total), ("ties_observed", c.get("ties_observed", 0), 1000),
                    ("reorg_switches", c.get("reorg_switches", 0), 500), ("validated_adds", c.get("validated_adds", 0), 300),
-                   ("long_histories", c.get("long_histories", 0), 20)],
+                   ("long_histories", c.get("long_histories", 0), 20),
+                   ("very_long_histories", c.get("very_long_histories", 0), 10)],
         "extra": {"exhaustive_bound": "all %d parent vectors with at most %d blocks after genesis" % (total, nmax)},
     }
